@@ -519,13 +519,30 @@ def rule_R5(ctx, f):
                 # for (k, v) in hmap.iter(): both from the same iteration over the registry's label map, nothing skipped
                 en, ev = elem_of(n_), elem_of(v_)
                 ok = bool(en) and bool(ev) and en[0] == ev[0] and en[2] == ["0"] and ev[2] == ["1"] and not [x for x in en[1] if x not in ("iter", "into_iter")] \
-                    and mentions_in(c2, en[0], "labels")
+                    and (mentions_in(c2, en[0], "labels") or _param_is_label_map(f, c2, en[0]))
                 if ok:
                     from . import hash_common as hc_
                     pu = [c for c in c2.calls_to("Vec::push") if peel(c.args[1]) == peel(sn2[0].args[0])]
                     ok = len(pu) == 1 and hc_.every_element(c2, pu[0], via=sn2[0]) is True
         ctx.ob(rid, "labels|pair-from-entry", ok, "a common pair must be (key, value) of the registry's label map entry, for every entry", site=c2.raw["span"]["at"])
     ctx.floor(rid, "places building common label pairs", npair, 1)
+
+
+def _param_is_label_map(f, c2, t):
+    """t is the parameter of closure c2 and c2 is the function of `self.labels.as_ref().map(|hmap| ..)` (or and_then / map_or..): the parameter is the label map."""
+    if peel(t) != ("param", 2) or not c2.is_closure:
+        return False
+    for bd in f.bodies.values():
+        if not c2.path.startswith(bd.path + "::") or bd is c2:
+            continue
+        for c in bd.calls():
+            if not c.matches(["Option::map", "Option::and_then", "Option::map_or", "Option::map_or_else", "Option::into_iter", "Option::iter"]):
+                continue
+            for a in c.args[1:]:
+                a0 = peel(a, transparent=[])
+                if isinstance(a0, tuple) and a0 and a0[0] == "agg" and a0[1] == "closure" and f.closure(a0[2]) is c2:
+                    return mentions_in(bd, c.args[0], "labels")
+    return False
 
 
 def mentions_in(body, t, fld):
